@@ -23,11 +23,11 @@ import (
 	"math/rand"
 	"net"
 	"runtime/trace"
-	"strings"
 
 	"github.com/emersion/go-message/textproto"
 	"github.com/emersion/go-msgauth/authres"
 	"github.com/emersion/go-msgauth/dmarc"
+	"github.com/foxcpp/maddy/framework/dns"
 )
 
 type verifyData struct {
@@ -166,7 +166,7 @@ func (v *Verifier) Apply(authRes []authres.Result) (EvalResult, Policy) {
 	}
 
 	policy := data.record.Policy
-	if !strings.EqualFold(data.policyDomain, data.fromDomain) && data.record.SubdomainPolicy != "" {
+	if !dns.Equal(data.policyDomain, data.fromDomain) && data.record.SubdomainPolicy != "" {
 		policy = data.record.SubdomainPolicy
 	}
 
